@@ -502,16 +502,6 @@ impl Model for StakeAdmin {
                 _ => BTreeSet::new(),
             };
             check_notifications(&what, &msgs, &pre.members, &obs.members, &pre.hooks, &listed, &mut v);
-            // a bond/unbond that leaves every weight as it was notifies nobody
-            if pre.members == obs.members {
-                let (notes, _) = hook_notes(&msgs);
-                if !notes.is_empty() {
-                    v.push(Violation::new(
-                        "C14.stake_notifies_only_when_a_weight_changes",
-                        format!("{what}: no weight changed but {} notification(s) were sent", notes.len()),
-                    ));
-                }
-            }
         }
         let dead = !v.is_empty();
         Step { next: State { w, r, obs: Arc::new(obs), dead }, label, ok, violations: v }
